@@ -10,10 +10,14 @@ open Mqtt
     (this is the only place where the model creates a PUBREL request) -/
 theorem pubrec_effect {w : World} (h : WInv w) (p : Nat) (ppr : Proto) (hpp : w.protos.get? p = some ppr)
     (hlive : ppr.lost = false) (hconn : ppr.state = .connected) (m : Nat) (hm : m < 65536) (rid : Nat)
-    (hl : Ents.lookup w.ents ppr.addr .pub m = some rid) :
+    (hl : Ents.lookup w.ents ppr.addr .pub m = some rid) (hq2 : (w.req rid).qos = 2) :
     ∃ t bs, (w.req rid).alarm = some t ∧ encodePUBREL (m : Int) = .ok bs ∧
       handlePUBREC p m w = (retryReleaseW p w.nextReq false (afterPubrec w ppr.addr m rid t bs ppr.initialT), none) :=
-  handlePUBREC_effect h p ppr hpp hlive hconn m hm rid hl
+  handlePUBREC_effect h p ppr hpp hlive hconn m hm rid hl hq2
+
+/-- a PUBREC bearing the identifier of a QoS 1 message writes no PUBREL and creates no release-window entry -/
+theorem pubrec_for_qos1 (p m rid : Nat) (w : World) (h : Ents.lookup w.ents (w.paddr p) .pub m = some rid) (hq : (w.req rid).qos ≠ 2) :
+    handlePUBREC p m w = (w, none) := handlePUBREC_wrong_qos p m rid w h hq
 
 /-- once the PUBREL has been written no container holds the PUBLISH request any more ... -/
 theorem no_publish_entry_left {w : World} (h : WInv w) (a m rid t : Nat) (bs : Bytes) (i : Nat) (he : (⟨a, .pub, m, rid⟩ : Ent) ∈ w.ents) :
